@@ -1,5 +1,5 @@
 SPECIFICATION TraceSpec
-CONSTANT Users = {"u1", "u2", "u3", "u4", "u5", "u6"}
+CONSTANT Users = {"u1", "u2", "u3", "u4", "u5", "u6", "u7", "u8", "u9", "u10", "u11"}
 CONSTRAINT Track
 POSTCONDITION Accepted
 INVARIANT TypeOK
